@@ -40,10 +40,16 @@ impl Axecutor {
         debug_assert_eq!(i.code(), Shl_rm8_imm8);
 
         calculate_rm_imm![u8f; self; i; |d: u8, s: u8| {
-            assert_ne!(s, 1, "SHL r/m8, imm8 with immediate 1 should be handled by opcode SHL r/m8, 1");
-
             // Only the low bits of the count are used by the CPU
             let s = s & 0x1f;
+
+            if s == 1 {
+                // Same as the dedicated `SHL r/m8, 1` opcode, where the overflow flag is defined
+                let cf = if d & 0x80 == 0 {0} else {FLAG_CF};
+                // OF == 0 <=> Two top bits of rm operand were the same
+                let of = if (d & 0x40 == 0) == (cf == 0) {0} else {FLAG_OF};
+                return (d.wrapping_shl(1), cf | of);
+            }
 
             if s == 0 {
                 return (d, FLAGS_UNAFFECTED);
@@ -59,7 +65,7 @@ impl Axecutor {
                     // Overflow flag is only defined for shifts of 1, which are handled by another opcode
                     (0, if s == 8 && d & 1 == 1 {FLAG_CF} else {0})}
             }
-        }; (set: FLAG_PF | FLAG_ZF | FLAG_SF; clear: FLAG_CF)]
+        }; (set: FLAG_PF | FLAG_ZF | FLAG_SF; clear: FLAG_CF | FLAG_OF)]
     }
 
     /// SHL r/m16, imm8
@@ -69,7 +75,16 @@ impl Axecutor {
         debug_assert_eq!(i.code(), Shl_rm16_imm8);
 
         calculate_rm_imm![u16f; u8; self; i; |d: u16, s: u8| {
-            assert_ne!(s, 1, "SHL r/m16, imm8 with immediate 1 should be handled by opcode SHL r/m16, 1");
+            // Only the low bits of the count are used by the CPU
+            let s = s & 0x1f;
+
+            if s == 1 {
+                // Same as the dedicated `SHL r/m16, 1` opcode, where the overflow flag is defined
+                let cf = if d & 0x8000 == 0 {0} else {FLAG_CF};
+                // OF == 0 <=> Two top bits of rm operand were the same
+                let of = if (d & 0x4000 == 0) == (cf == 0) {0} else {FLAG_OF};
+                return (d.wrapping_shl(1), cf | of);
+            }
 
             if (s&0x1f) == 0 {
                 return (d, FLAGS_UNAFFECTED);
@@ -85,7 +100,7 @@ impl Axecutor {
                     // Overflow flag is only defined for shifts of 1, which are handled by another opcode
                     (0, if s == 16 && d & 1 == 1 {FLAG_CF} else {0})}
             }
-        }; (set: FLAG_PF | FLAG_ZF | FLAG_SF; clear: FLAG_CF)]
+        }; (set: FLAG_PF | FLAG_ZF | FLAG_SF; clear: FLAG_CF | FLAG_OF)]
     }
 
     /// SHL r/m32, imm8
@@ -95,7 +110,16 @@ impl Axecutor {
         debug_assert_eq!(i.code(), Shl_rm32_imm8);
 
         calculate_rm_imm![u32f; u8; self; i; |d: u32, s: u8| {
-            assert_ne!(s, 1, "SHL r/m32, imm8 with immediate 1 should be handled by opcode SHL r/m32, 1");
+            // Only the low bits of the count are used by the CPU
+            let s = s & 0x1f;
+
+            if s == 1 {
+                // Same as the dedicated `SHL r/m32, 1` opcode, where the overflow flag is defined
+                let cf = if d & 0x80000000 == 0 {0} else {FLAG_CF};
+                // OF == 0 <=> Two top bits of rm operand were the same
+                let of = if (d & 0x40000000 == 0) == (cf == 0) {0} else {FLAG_OF};
+                return (d.wrapping_shl(1), cf | of);
+            }
 
             if (s&0x1f) == 0 {
                 return (d, FLAGS_UNAFFECTED);
@@ -110,7 +134,7 @@ impl Axecutor {
                     panic!("u8 s & 0x1f should never be >=32");
                 }
             }
-        }; (set: FLAG_PF | FLAG_ZF | FLAG_SF; clear: FLAG_CF)]
+        }; (set: FLAG_PF | FLAG_ZF | FLAG_SF; clear: FLAG_CF | FLAG_OF)]
     }
 
     /// SHL r/m64, imm8
@@ -120,7 +144,16 @@ impl Axecutor {
         debug_assert_eq!(i.code(), Shl_rm64_imm8);
 
         calculate_rm_imm![u64f; u8; self; i; |d: u64, s: u8| {
-            assert_ne!(s, 1, "SHL r/m64, imm8 with immediate 1 should be handled by opcode SHL r/m64, 1");
+            // Only the low bits of the count are used by the CPU
+            let s = s & 0x3f;
+
+            if s == 1 {
+                // Same as the dedicated `SHL r/m64, 1` opcode, where the overflow flag is defined
+                let cf = if d & 0x8000000000000000 == 0 {0} else {FLAG_CF};
+                // OF == 0 <=> Two top bits of rm operand were the same
+                let of = if (d & 0x8000000000000000) == ((d & 0x4000000000000000)<<1) {0} else {FLAG_OF};
+                return (d.wrapping_shl(1), cf | of);
+            }
 
             if s&0x3f == 0 {
                 return (d, FLAGS_UNAFFECTED);
@@ -135,7 +168,7 @@ impl Axecutor {
                     panic!("u64 s & 0x1f should never be >=64");
                 }
             }
-        }; (set: FLAG_PF | FLAG_ZF | FLAG_SF; clear: FLAG_CF)]
+        }; (set: FLAG_PF | FLAG_ZF | FLAG_SF; clear: FLAG_CF | FLAG_OF)]
     }
 
     /// SHL r/m8, 1
